@@ -672,6 +672,27 @@ func runHostile(c *child, hc *hostCase, seqNo int, rng *rand.Rand, floodAuth int
 		case "flood_calls":
 			conn(op.X).sendMany(op.A, net.Call, svc, obj, 100, strPayload("flood"))
 			flooded[op.X] = flooded[op.X] || h.slowed
+		case "auth_wrongtype":
+			// authenticate once more: the capability map {sm} decodes, a credential in it is not a string
+			caps := bus.CapabilityMap{}
+			for k, v := range bus.ClientCap("u", "t") {
+				caps[k] = v
+			}
+			switch op.X {
+			case "user":
+				caps[bus.KeyUser] = value.Uint(7)
+			case "token":
+				caps[bus.KeyToken] = value.Bool(true)
+			case "both":
+				caps[bus.KeyUser] = value.List([]value.Value{value.Int(1)})
+				caps[bus.KeyToken] = value.Raw([]byte{1, 2, 3})
+			default:
+				caps[bus.KeyNewToken] = value.Float(1.5)
+				caps[bus.KeyState] = value.String("done")
+			}
+			var b bytes.Buffer
+			bus.WriteCapabilityMap(caps, &b)
+			ans = r.wait(r.send(net.Call, 0, 0, 8, b.Bytes()), short)
 		case "flood_auth":
 			var b bytes.Buffer
 			bus.WriteCapabilityMap(bus.ClientCap("u", "t"), &b)
